@@ -582,7 +582,9 @@ fn layouts_for(list: &[Rec], tier: Tier, list_idx: usize, full: bool) -> Vec<Lay
         for wrap in wraps {
             let variants: Vec<Variant> = if wrap.is_none() { vec![Variant::AsWritten, Variant::Crlf, Variant::Rewrap(3), Variant::Rewrap(1), Variant::CrlfRewrap(3), Variant::CrlfRewrap(2)] } else { vec![Variant::AsWritten, Variant::Crlf] };
             for variant in variants {
-                let len = apply_variant(&write_bytes(list, format, wrap, false), format, variant).len();
+                // the writer runs inside Ctx::case everywhere else; here only the length is needed to
+                // enumerate schedules, so a panicking writer must not take the enumeration down
+                let len = guard(|| apply_variant(&write_bytes(list, format, wrap, false), format, variant).len()).unwrap_or(0);
                 for cap in caps {
                     for sched in uniform_family() {
                         v.push(Layout { format, wrap, variant, cap, sched, api: Api::Records, interrupts: vec![] });
@@ -655,7 +657,7 @@ fn list_unit(tier: Tier, shard: usize, ctx: &mut Ctx) {
             }
         }
         for (format, wrap) in [(Format::Fastq, None), (Format::Fasta, None), (Format::Fasta, Some(3))] {
-            let n = write_bytes(list, format, wrap, false).len();
+            let n = guard(|| write_bytes(list, format, wrap, false).len()).unwrap_or(0);
             for cut in 0..n {
                 ctx.case(|| json!({"kind": "cut", "records": list, "format": format, "wrap": wrap, "cut": cut}), |cc| cut_check(list, format, wrap, cut, cc));
             }
